@@ -451,6 +451,30 @@ func (e *Sim) actionFrom(w *World, r *rand.Rand, ns, name string, sh shape, edit
 				w.tracef("user: set canary replicas of %s/%s to %s", ns, name, rep.String())
 			}
 		}},
+		{p.Edits / 4, func() {
+			// the user rewrites the strategy: drops the canary block (possibly during a canary), adds one,
+			// or re-applies the manifest as originally written (defaulted fields absent again)
+			switch r.Intn(3) {
+			case 0:
+				w.S.Mutate(simapi.KindEDS, ns, name, func(o client.Object) { o.(*v1.ExtendedDaemonSet).Spec.Strategy.Canary = nil })
+				w.tracef("user: remove the canary strategy of %s/%s", ns, name)
+			case 1:
+				st, _ := genStrategy(r, Profile{CanaryProb: 1})
+				w.S.Mutate(simapi.KindEDS, ns, name, func(o client.Object) { o.(*v1.ExtendedDaemonSet).Spec.Strategy.Canary = st.Canary })
+				w.tracef("user: set a canary strategy on %s/%s", ns, name)
+			default:
+				w.S.Mutate(simapi.KindEDS, ns, name, func(o client.Object) {
+					e := o.(*v1.ExtendedDaemonSet)
+					e.Spec.Strategy.ReconcileFrequency = nil
+					e.Spec.Strategy.RollingUpdate.MaxParallelPodCreation = nil
+					e.Spec.Strategy.RollingUpdate.MaxPodSchedulerFailure = nil
+					if c := e.Spec.Strategy.Canary; c != nil {
+						c.AutoPause, c.AutoFail, c.NodeSelector = nil, nil, nil
+					}
+				})
+				w.tracef("user: re-apply the original (undefaulted) strategy of %s/%s", ns, name)
+			}
+		}},
 		{p.Holds, func() {
 			keys := []string{v1.ExtendedDaemonSetRollingUpdatePausedAnnotationKey, v1.ExtendedDaemonSetRolloutFrozenAnnotationKey, v1.ExtendedDaemonSetCanaryPausedAnnotationKey, v1.ExtendedDaemonSetCanaryUnpausedAnnotationKey}
 			w.Annotate(ns, name, keys[r.Intn(len(keys))], []string{"true", "false", ""}[r.Intn(3)])
